@@ -54,6 +54,15 @@ class Other(Exception):
     pass
 
 
+class OtherBase(BaseException):
+    pass
+
+
+# "any other exception": what a frame raises when the scenario says `rother` is one of these, chosen by the
+# scenario text (the model knows one kind, `Other`; all of them must propagate out of start() alike)
+OTHER_KINDS = [Other, Other, OtherBase, KeyboardInterrupt, SystemExit, AssertionError]
+
+
 class ClockExhausted(Exception):
     pass
 
@@ -164,12 +173,14 @@ def truth_ns(kind):
 
 
 def exc_name(e):
-    return type(e).__name__
+    return 'Other' if getattr(e, '_scripted_other', False) else type(e).__name__
 
 
 class Run:
     def __init__(self, lines):
         self.decls, self.reacts, self.ops = parse(lines)
+        import zlib
+        self.other = OTHER_KINDS[zlib.crc32('\n'.join(lines).encode()) % len(OTHER_KINDS)]
         self.to_clock, self.unit = CLOCKS[clock_of(lines)]
         self.obs = []
         self.delivered = 0
@@ -238,7 +249,13 @@ class Run:
             raise desper.Quit()
         elif k == 'rother':
             self.mark('rother')
-            raise Other()
+            e = self.other()
+            try:
+                e._scripted_other = True
+            except AttributeError:
+                e = Other()
+                e._scripted_other = True
+            raise e
         else:
             raise ValueError(a)
 
@@ -357,6 +374,10 @@ class Run:
         except RecursionError:
             out = 'hang'
         except Exception as e:        # noqa
+            out = 'raised ' + exc_name(e)
+        except BaseException as e:    # noqa  (the scenario's own KeyboardInterrupt / SystemExit / … only)
+            if not getattr(e, '_scripted_other', False):
+                raise
             out = 'raised ' + exc_name(e)
         if op[0] == 'start':
             self.obs.append(f'ret {out} running={int(bool(self.loop.running))} {self.where()}')
